@@ -1,0 +1,112 @@
+//! Verification hooks, compiled only with `--cfg xs_verif`.
+//!
+//! Every hook is a no-op unless a [`Controller`] has been installed by a
+//! simulation harness, so even a build with the cfg enabled behaves like the
+//! shipped code. The harness lives outside this repository.
+
+use std::future::Future;
+use std::pin::Pin;
+use std::sync::{Arc, RwLock};
+
+use scru128::Scru128Id;
+
+/// Guard evaluated by the controller while the calling thread is parked at a
+/// sync point: the point is only released while the guard holds (i.e. while
+/// the blocking operation that follows the point would not block).
+pub type Guard<'a> = &'a (dyn Fn() -> bool + Sync);
+
+pub trait Controller: Send + Sync + 'static {
+    /// Sync point on an OS thread; returns when the scheduler releases the caller.
+    fn point(&self, site: &'static str, detail: u128, guard: Option<Guard<'_>>);
+    /// Sync point inside an async task; the future resolves when released.
+    fn apoint(&self, site: &'static str, detail: u128) -> Pin<Box<dyn Future<Output = ()> + Send>>;
+    /// The caller is about to spawn an OS thread that will call `thread_begin`.
+    fn expect_thread(&self, kind: &'static str);
+    fn thread_begin(&self, kind: &'static str);
+    fn thread_end(&self);
+    /// Non-blocking notification.
+    fn event(&self, site: &'static str, detail: u128);
+    /// Simulated wall clock in ms since the epoch (None: use the real one).
+    fn now_ms(&self) -> Option<u64>;
+    /// Simulated id source (None: use the real one).
+    fn new_id(&self) -> Option<Scru128Id>;
+    /// Tunable constants (channel capacities, ...).
+    fn knob(&self, name: &'static str, default: usize) -> usize;
+}
+
+static CONTROLLER: RwLock<Option<Arc<dyn Controller>>> = RwLock::new(None);
+
+pub fn install(c: Arc<dyn Controller>) {
+    *CONTROLLER.write().unwrap() = Some(c);
+}
+
+pub fn uninstall() {
+    *CONTROLLER.write().unwrap() = None;
+}
+
+fn controller() -> Option<Arc<dyn Controller>> {
+    CONTROLLER.read().unwrap().clone()
+}
+
+pub fn point(site: &'static str, detail: u128) {
+    if let Some(c) = controller() {
+        c.point(site, detail, None);
+    }
+}
+
+pub fn point_if(site: &'static str, detail: u128, guard: Guard<'_>) {
+    if let Some(c) = controller() {
+        c.point(site, detail, Some(guard));
+    }
+}
+
+pub async fn apoint(site: &'static str, detail: u128) {
+    if let Some(c) = controller() {
+        c.apoint(site, detail).await;
+    }
+}
+
+pub fn expect_thread(kind: &'static str) {
+    if let Some(c) = controller() {
+        c.expect_thread(kind);
+    }
+}
+
+pub struct ThreadScope(Option<Arc<dyn Controller>>);
+
+pub fn thread_scope(kind: &'static str) -> ThreadScope {
+    let c = controller();
+    if let Some(c) = &c {
+        c.thread_begin(kind);
+    }
+    ThreadScope(c)
+}
+
+impl Drop for ThreadScope {
+    fn drop(&mut self) {
+        if let Some(c) = &self.0 {
+            c.thread_end();
+        }
+    }
+}
+
+pub fn event(site: &'static str, detail: u128) {
+    if let Some(c) = controller() {
+        c.event(site, detail);
+    }
+}
+
+pub fn now_ms() -> Option<u64> {
+    controller().and_then(|c| c.now_ms())
+}
+
+pub fn new_id() -> Option<Scru128Id> {
+    controller().and_then(|c| c.new_id())
+}
+
+pub fn knob(name: &'static str, default: usize) -> usize {
+    match controller() {
+        Some(c) => c.knob(name, default),
+        None => default,
+    }
+}
